@@ -11,6 +11,7 @@ PRE_OL = HDR + 'Require Import WV.model.C18Outline.\n'
 PRE_LK = HDR + 'Require Import WV.model.C18Links.\n'
 PRE_DT = HDR + 'Require Import WV.model.C18Date.\n'
 PRE_HR = HDR + 'Require Import WV.model.C18Href.\n'
+PRE_NM = HDR + 'Require Import WV.model.C18Names.\n'
 PRE_AB = 'From Coq Require Import QArith List.\nImport ListNotations.\nRequire Import WV.model.C18Aabb.\nOpen Scope Q_scope.\n'
 
 
@@ -482,10 +483,10 @@ def stream_aabb(run, rng, n):
 
 # ================================================================================ 3c. spellings of internal links
 
-# anchor names with reserved and non-ASCII characters.  Non-ASCII names start with a non-ASCII BMP character so that the
-# /Dests name tree stays byte-sorted (open finding dests-not-byte-sorted is probed separately).
+# anchor names with reserved and non-ASCII characters (ASCII-first and non-ASCII-first, BMP and astral: the /Dests name
+# tree must be sorted as the bytes that are written, ASCII literal strings before FEFF + UTF-16BE)
 NAMES = ['x', 'a b', 'a+b', 'a&b=c', 'q?r', '50%', '(x)', "it's", 'a/b', 'a#b', 'A.b-c_d~e', 'a:b@c', 'x%y', '100%25',
-         'élan', 'é caf é', '中文', 'ü+1', 'ñ/ñ?ñ', 'éa%b', 'Ωmega', 'ßx']
+         'élan', 'é caf é', '中文', 'ü+1', 'ñ/ñ?ñ', 'éa%b', 'Ωmega', 'ßx', 'café', 'aé', 'z中', 'a😀b', '😀', 'ｚ', 'zz é']
 SAME_DOC = ['doc.html', './doc.html', '../dir/doc.html', 'http://base.test/dir/doc.html', '//base.test/dir/doc.html',
             '/dir/doc.html', '/dir/../dir/doc.html']
 # a document URL that iri_to_uri has to escape, and spellings of it (raw, escaped, mixed)
@@ -938,7 +939,7 @@ def gen_doc(rng, ascii_ids, mode=None):
     if mode == 'spellings':
         pool = rng.sample(NAMES, rng.choice([3, 6, 10]))
     if not ascii_ids:
-        pool += ['aé', 'ü1', 'z中']
+        pool += rng.sample(['aé', 'ü1', 'z中', 'café', 'a😀', '😀x', 'ｚ', 'é'], 3)
     # where the document URL comes from: the base_url argument, a <base href> element, or nowhere
     basekind = rng.choice(['arg', 'arg', 'element', 'none']) if mode == 'spellings' else rng.choice(['arg'] * 8 + ['element', 'none'])
     docbase = BASE2 if rng.random() < (0.4 if mode == 'spellings' else 0.15) else BASE
@@ -1373,21 +1374,7 @@ def judge_doc(case, exp, r):
         pt = chain_point(exp, geo, pi, first_chain.get(name), area[0], area[1])
         if pt is None or pref != r['page_refs'][pi] or kind != '/XYZ' or not close(x, pt[0] * s, 1e-5) or \
                 not close(y, (heights[pi] - pt[1]) * s, 1e-5) or z != 0:
-            pt2 = chain_point(exp, geo, pi, first_chain.get(name), pt[0], pt[1]) if pt is not None else None
-            if pt2 is not None and first_chain.get(name) and first_of[name] in bookmarked and pref == r['page_refs'][pi] \
-                    and close(x, pt2[0] * s, 1e-5) and close(y, (heights[pi] - pt2[1]) * s, 1e-5):
-                # gather_anchors: the bookmark branch overwrites pos_x, pos_y with their images, the anchor branch
-                # transforms them again
-                bad.append(('dest-of-bookmarked-element-transformed-twice', (name, x, y, pt, pt2)))
-            else:
-                grid = next(((gp, ga) for gp, ga, gc in boxes if gc in ('TableBox', 'InlineTableBox')), None)
-                gpt = chain_point(exp, geo, grid[0], first_chain.get(name), grid[1][0], grid[1][1]) if grid else None
-                if gpt is not None and pref == r['page_refs'][grid[0]] and close(x, gpt[0] * s, 1e-5) and \
-                        close(y, (heights[grid[0]] - gpt[1]) * s, 1e-5):
-                    # the anchor of a <table> sits on its grid box, not on the wrapper box that also holds the caption
-                    bad.append(('dest-of-table-with-caption-is-grid-box', (name, x, y, (pi, area), grid)))
-                else:
-                    bad.append(('dest-is-first-element-with-that-name', (name, pref, x, y, pi, area, pt)))
+            bad.append(('dest-is-first-element-with-that-name', (name, pref, x, y, pi, area, pt)))
     # ---------------- links
     want_api = [[] for _ in heights]
     want_pdf = [[] for _ in heights]
@@ -1484,9 +1471,8 @@ def stream_render(run, rng, n):
     for c in corpus('render'):
         docs.append((c['case'], c['exp']))
     for i in range(n):
-        docs.append(gen_doc(rng, ascii_ids=True))
-    # one dedicated probe with non-ASCII ids (open known finding 'dests-not-byte-sorted': the name tree is sorted as
-    # Python str, the keys are written as bytes)
+        docs.append(gen_doc(rng, ascii_ids=rng.random() < 0.6))
+    # regression witness of F47 (fixed in 484a69a): ASCII and non-ASCII ids mixed, the name tree must be byte-sorted
     docs.append(probe_nonascii_ids())
     outs = common.run_impl('impl_c18', 'render_doc', [d[0] for d in docs], limit=90, chunksize=2)
     split = nb = nl = na = nsplitc = npseudo = ntl = nnest = nselfurl = npct = nexo = 0
@@ -1529,6 +1515,31 @@ def stream_render(run, rng, n):
             run.fail('render monitor: clause %s fails: %s' % (clause, str(detail)[:600]),
                      {'stream': 'render', 'case': case, 'exp': exp, 'clause': clause}, signature=clause)
         seen.add((len(exp['bookmarks']) > 0, len(exp['links']) > 0, o['npages'] > 1, bool(exp['attachments'])))
+    # the written /Dests names through the Coq model of the sort (names as UTF-16 code units)
+    name_lists, name_docs = [], []
+    for (case, exp), (st, o) in zip(docs, outs):
+        if st == 'ok' and len(o['dests']) >= 2:
+            name_lists.append([d[0] for d in o['dests']])
+            name_docs.append((case, exp))
+
+    def units(nm):
+        b = nm.encode('utf-16-be')
+        return '[%s]' % '; '.join(zlit(b[i] * 256 + b[i + 1]) for i in range(0, len(b), 2))
+    try:
+        masks = common.eval_cases('c18nm', PRE_NM, 'list name', ['[%s]' % '; '.join(units(x) for x in nl_) for nl_ in name_lists],
+                                  'names_judge', per_file=max(20, len(name_lists) // 12))
+        run.oblige('corr:dests-order(model sort_names vs the /Dests array written by generate_pdf)',
+                   not any(m & 1 for m in masks), str([nl_ for nl_, m in zip(name_lists, masks) if m & 1][:2]))
+        for nl_, m, (case, exp) in zip(name_lists, masks, name_docs):
+            if m & 2:
+                run.fail('the /Dests names are not strictly sorted as byte strings: %s' % nl_,
+                         {'stream': 'render', 'case': case, 'exp': exp, 'names': nl_}, signature='dests-not-byte-sorted')
+                break
+        run.count('dests-order', len(name_lists), [tuple(x) for x in name_lists])
+        run.stream_info('dests-order', rule='the name arrays of the rendered documents (ASCII, non-ASCII BMP and astral ids '
+                        'mixed in 40%% of them), judged in Coq', with_non_ascii=sum(1 for x in name_lists if any(not y.isascii() for y in x)))
+    except RuntimeError as exc:
+        run.oblige('corr:dests-order', False, str(exc))
     run.count('render-monitor', len(docs), [('doc', i) for i in range(len(docs))], samples=[docs[-1][0]['html'][:500]])
     run.stream_info('render-monitor', bookmarks=nb, bookmarked_boxes_split_over_pages=split, links=nl, anchors=na,
                     split_containers_with_bookmarks_between_fragments=nsplitc, pseudo_element_bookmarks=npseudo,
@@ -1562,7 +1573,7 @@ def check(run):
     rng = random.Random(run.seed * 7919 + 18)
     thorough = run.tier == 'thorough'
     common.prove(run, 'C18', ['model/C18Bookmarks.vo', 'model/C18Outline.vo', 'model/C18Links.vo', 'model/C18Date.vo',
-                              'model/C18Aabb.vo', 'model/C18Href.vo'])
+                              'model/C18Aabb.vo', 'model/C18Href.vo', 'model/C18Names.vo'])
     run.trusted += ['Coq 8.16.1 kernel (coqc); vm_compute for the cases.v evaluation',
                     'hand models coq/model/C18*.v, tied to /repo only by the direct-call correspondence streams',
                     'harness stubs (SimpleNamespace pages/boxes, pydyf.PDF), its reader of pydyf objects/strings, '
